@@ -208,6 +208,27 @@ def run(rep, tier, seed):
                 "0.1", "0.2", "0.7", "123456789.12345679", "9007199254740993.0", "4.35", "2.675", "1e23", "8.41e21"]:
         items.append(("typed", ("dbl", lit)))
         items.append(("typed", ("bin", "MULT", ("id", "d"), ("dbl", lit))))
+    # short mantissas with extreme exponents: printed in exponent notation without a '.', (1e-05, 2e+20), written
+    # here with and without a fraction / exponent
+    for m in (1, 2, 3, 5, 7, 9, 12, 25):
+        for ex in list(range(-12, -3)) + list(range(14, 24)) + [-300, -100, 100, 300]:
+            forms = ["%de%d" % (m, ex), "%d.0e%d" % (m, ex)]
+            if -12 <= ex < 0:
+                forms.append("0." + "0" * (-ex - 1) + str(m))
+            if 0 < ex <= 23:
+                forms.append(str(m) + "0" * ex + ".0")
+            lit = ("dbl", rng.choice(forms))
+            items.append(("typed", rng.choice([lit, ("bin", "PLUS", ("id", "d"), lit), ("bin", "LT", lit, ("id", "e")),
+                                               ("un", "UNARY_MINUS", lit)])))
+    # the most negative integer and signs in front of signs
+    for t in [("un", "UNARY_MINUS", ("int", "-2147483648")), ("int", "-2147483648"),
+              ("bin", "MINUS", ("id", "i"), ("int", "-2147483648")), ("un", "UNARY_MINUS", ("un", "UNARY_MINUS", ("int", "3"))),
+              ("un", "UNARY_MINUS", ("un", "PRE_DECREMENT", ("id", "i"))), ("bin", "MINUS", ("id", "i"), ("un", "UNARY_MINUS", ("id", "j"))),
+              ("bin", "MINUS", ("id", "i"), ("un", "PRE_DECREMENT", ("id", "j"))), ("bin", "PLUS", ("id", "i"), ("un", "PRE_INCREMENT", ("id", "j"))),
+              ("bin", "PLUS", ("un", "POST_INCREMENT", ("id", "i")), ("id", "j")), ("un", "UNARY_MINUS", ("dbl", "0.5")),
+              ("bin", "MINUS", ("id", "d"), ("un", "UNARY_MINUS", ("dbl", "1e-05"))), ("un", "NOT", ("un", "NOT", ("id", "b")))]:
+        items.append(("typed", t))
+        items.append(("raw", t))
     # untyped trees: accepted by the expression parser (no diagnostics) though not necessarily well typed
     for _ in range(6000 if quick else 60000):
         items.append(("raw", ug.tree(rng.choice([2, 3, 4]))))
